@@ -256,6 +256,8 @@ func genKey(s string) string {
 // ---- C09 -----------------------------------------------------------------------------------------
 
 var c09Struct = []string{
+	// a quoted underscore is an ordinary name, not the parent reference
+	"a: {\"_\" -> x}", "a: {b: {'_' -> x; '_'.y}}", "\"_\".c",
 	"a", "b", "a.b", "a: {b; c}", "a -> b", "a.b -> a.c", "a.b -> d", "a: {b -> _.d}", "c: {shape: class; +f: int; m(): void}", "t: {shape: sql_table; id: int {constraint: primary_key}; n: text}",
 	"t.id -> u.id", "u: {shape: sql_table; id: int}", "s: {shape: sequence_diagram; x -> y; y -> x: r}", "s: {shape: sequence_diagram; x.sp -> y.sp; x.\"note\"}", "s.g: {x -> y}",
 	"g: {grid-rows: 2; p; q; r}", "g.p -> g.q", "layers: {l: {x; x -> y}}", "scenarios: {s1: {a.z}}", "steps: {1: {n1}; 2: {n2 -> n1}}", "a: null", "a.b: null", "(a -> b)[0]: null",
@@ -509,7 +511,7 @@ func init() {
 
 	eng.Register(&eng.Check{
 		ID: "C09", Level: "exploration",
-		Rule: "every sequence of ≤2 (quick) / ≤3 (thorough) statements over the 40-statement structure fragment (class / sql_table with fields, sequence diagrams with actors, spans, notes and groups, grids, boards of each kind, underscores, connections across containers, nulls, globs) and over the 260-statement full-language core of C07 (≤2), compiled with an in-memory file set; compilable programs only; oracle: per board — objects listed once, parent chain reaches the root, parent lists the child exactly once in ChildrenArray and under lower-case ID in Children, class/sql_table fields are not objects, every connection joins two listed objects of its own board; order clause on the root board of glob-/import-/substitution-/null-/class-free programs: Objects and Edges sorted by byte offset of their first reference",
+		Rule: "every sequence of ≤2 (quick) / ≤3 (thorough) statements over the 43-statement structure fragment (quoted underscore names, class / sql_table with fields, sequence diagrams with actors, spans, notes and groups, grids, boards of each kind, underscores, connections across containers, nulls, globs) and over the 260-statement full-language core of C07 (≤2), compiled with an in-memory file set; compilable programs only; oracle: per board — objects listed once, parent chain reaches the root, parent lists the child exactly once in ChildrenArray and under lower-case ID in Children, class/sql_table fields are not objects, every connection joins two listed objects of its own board; order clause on the root board of glob-/import-/substitution-/null-/class-free programs: Objects and Edges sorted by byte offset of their first reference",
 		Assumptions: []string{"the order clause is checked only where 'first appearance' is defined by the source text alone: root board, programs without globs, imports, substitutions, null deletions and classes"},
 		Oracles: map[string]eng.Oracle{"tree": c09Oracle},
 		Run: func(w *eng.W) {
